@@ -38,7 +38,8 @@ Init ==
                                     ixy |-> x[13], ixz |-> x[14], iyz |-> x[15], mass |-> x[16] + 3]
      \/ fam = "euler"   /\ \E h1 \in HA, h2 \in HA, h3 \in HA : inp = [h |-> <<h1, h2, h3>>]
      \/ fam = "axis"    /\ \E h \in HA, a \in UV : inp = [h |-> h, axis |-> Vec(a)]
-     \/ fam = "fromto"  /\ \E a \in UV, b \in UV : inp = [v1 |-> Vec(a), v2 |-> Vec(b)]
+     \/ fam = "fromto"  /\ \E a \in UV : \/ \E b \in UV : inp = [v1 |-> Vec(a), v2 |-> Vec(b)]
+                                          \/ inp = [v1 |-> Vec(a), v2 |-> RVNeg(Vec(a))]     \* antiparallel
 
 Qx(h) == <<Cs(h), Sn(h), RZero, RZero>>
 Qy(h) == <<Cs(h), RZero, Sn(h), RZero>>
